@@ -107,6 +107,24 @@ def pool():
     class Color(enum.Enum):
         R = 1
 
+    # a diamond below two union cases: the union dumper picks a case by the class of the datum (nearest ancestor in the MRO);
+    # what was dumped EARLIER through the same dumper must not influence that choice
+    @dataclass
+    class Base:
+        id: int
+
+    @dataclass
+    class Named(Base):
+        name: str = "n"
+
+    @dataclass
+    class Tagged(Base):
+        tag: str = "t"
+
+    @dataclass
+    class NamedTagged(Named, Tagged):
+        pass
+
     class Flag01(enum.IntEnum):
         Z = 0
         O = 1
@@ -129,13 +147,14 @@ def pool():
         "M1": M1, "M2": M2, "D0": D0, "DF": DF, "N": N, "int": int, "bool": bool, "Annotated[int,x]": Annotated[int, "x"],
         "Annotated[int,y]": Annotated[int, "y"], "Color": Color, "Flag01": Flag01, "Literal[Color.R,1]": Literal[Color.R, 1],
         "List[Literal[0,1]]": List[Literal[0, 1]], "List[Literal[False,True]]": List[Literal[False, True]],
-        "Weird": Weird, "List[Weird]": List[Weird], "RA": g["RA"], "RB": g["RB"], "Outer": g["Outer"],
+        "Union[Base,Tagged]": Union[Base, Tagged], "Weird": Weird, "List[Weird]": List[Weird], "RA": g["RA"], "RB": g["RB"], "Outer": g["Outer"],
     }
     load_samples = [lambda: {"a": 0}, lambda: 0, lambda: 1, lambda: False, lambda: True, lambda: "a", lambda: [0, 1], lambda: [False, True], lambda: None,
                     lambda: {"a": 1}, lambda: {"a": True, "b": "y"}, lambda: {}, lambda: {"f": 1}, lambda: "R", lambda: [],
                     lambda: {"b": {"a": None}}, lambda: {"b": {"a": {"b": {}}}}, lambda: 1.0]
     dump_samples = [lambda: RowV1(0), lambda: RowV2(0), lambda: 0, lambda: True, lambda: [1, True], lambda: M1(1), lambda: M2(2, "q"), lambda: D0(), lambda: DF(), lambda: Color.R,
-                    lambda: "a", lambda: None, lambda: Flag01.O, lambda: g["RB"](), lambda: g["Outer"](g["RB"]())]
+                    lambda: "a", lambda: None, lambda: Flag01.O, lambda: g["RB"](), lambda: g["Outer"](g["RB"]()),
+                    lambda: Named(1), lambda: NamedTagged(1), lambda: Tagged(2), lambda: Base(3)]
     return types, load_samples, dump_samples
 
 
@@ -191,6 +210,27 @@ def extra_checks(tier, seed):
             want = fresh(kind, p, "default", mk_default)
             if got != want:
                 report("history-independent", [f"{kind} {w}"], kind, p, got, want)
+    # (a') ONE obtained loader / dumper applied to the whole sample sequence (in both orders) behaves on each sample as a freshly
+    # obtained one applied to that sample alone: "every loader already obtained from it" keeps no memory of earlier data
+    for kind in ("load", "dump"):
+        samples = load_samples if kind == "load" else dump_samples
+        for tname in names:
+            try:
+                r = Retort()
+                fn = r.get_loader(types[tname]) if kind == "load" else r.get_dumper(types[tname])
+            except Exception:  # noqa: BLE001
+                continue
+            forward = _behaviour(fn, samples)
+            backward = _behaviour(fn, samples[::-1])[::-1]
+            n_hist += 1
+            alone = []
+            for smp in samples:
+                r1 = Retort()
+                f1 = r1.get_loader(types[tname]) if kind == "load" else r1.get_dumper(types[tname])
+                alone.extend(_behaviour(f1, [smp]))
+            for label, got in (("in order", forward), ("in reverse order", backward)):
+                if got != alone:
+                    report("call-history-independent", [f"one {kind}er of {tname} applied to all samples {label}"], kind, tname, got, alone)
     # the other direction of the facade (a dumper request warms what a loader request uses and vice versa)
     for w, p in itertools.product(warm_names, names):
         r = Retort()
